@@ -44,6 +44,7 @@ pub const STREAM_CLOSE: u64 = 40; // a      (harness lets the stream of actor a 
 pub const BCAST_BEGIN: u64 = 41; // a ty
 pub const BCAST_END: u64 = 47; // a ty    (send_to_children returned)
 pub const IDENTITY: u64 = 48; // a same  (a later incarnation of a is started with the context id its handles carry: 1, another one: 0)
+pub const ABANDON: u64 = 49; // o        (the caller dropped the future of call o before the answer came)
 pub const TIMER_SLEEP: u64 = 42; // a k d    (timer task k of a starts sleeping d)
 
 pub const BROKER: u64 = 44; // b what a h   (what: 0 publish begins, 1 holds, 2 target, 3 published, 4 subscribe, 5 unsubscribe, 6 the broker's topic (in the a field))
